@@ -189,55 +189,72 @@ func runRegistry(a *Analyzer, r *Results) {
 		}
 		// K2.always: whatever the table holds, the call leaves the watermark at or above its argument: every path to a
 		// return stores the watermark or passes the "watermark is not older than the argument" outcome of its test
+		// (in CancelOlderThan itself, or in a helper it hands its argument to)
 		{
-			c := a.NewFCtx(fn, a.EntryEnv(fn, nil), 0)
-			olderKey := older(newest, hv).Key()
-			type st struct {
-				b  *ssa.BasicBlock
-				ok bool
-			}
-			seen := map[st]bool{}
-			bad := ""
-			var walk func(b *ssa.BasicBlock, ok bool)
-			walk = func(b *ssa.BasicBlock, ok bool) {
-				if seen[st{b, ok}] || bad != "" {
-					return
+			var raises func(g *ssa.Function, hvT *Term, depth int) string
+			raises = func(g *ssa.Function, hvT *Term, depth int) string {
+				c := a.NewFCtx(g, a.EntryEnv(g, nil), 0)
+				olderKey := older(newest, hvT).Key()
+				type st struct {
+					b  *ssa.BasicBlock
+					ok bool
 				}
-				seen[st{b, ok}] = true
-				for _, in := range b.Instrs {
-					switch x := in.(type) {
-					case *ssa.Store:
-						if a.addrLoc(x.Addr) == "state.ViewContexts.newestHvCanceledOlder" {
-							ok = true
-						}
-					case *ssa.Return:
-						if !ok {
-							bad = a.P.InstrPos(in)
-						}
-						return
-					case *ssa.Panic:
+				seen := map[st]bool{}
+				bad := ""
+				var walk func(b *ssa.BasicBlock, ok bool)
+				walk = func(b *ssa.BasicBlock, ok bool) {
+					if seen[st{b, ok}] || bad != "" {
 						return
 					}
-				}
-				ifi, isIf := b.Instrs[len(b.Instrs)-1].(*ssa.If)
-				for si, sx := range b.Succs {
-					ok2 := ok
-					if isIf {
-						// does taking this edge imply "the watermark is not older than the argument"? It does when the
-						// condition, evaluated with "older" assumed true, is forced to the other truth value
-						// (covers the bare test, named booleans, nil-guards joined with || / &&, inverted forms)
-						t := unfreeze(c.Term(ifi.Cond))
-						v := evalBool(t, func(at *Atom) bool {
-							return at.Pred == "truth" && !at.Neg && len(at.Args) == 1 && at.Args[0].Key() == olderKey
-						})
-						if (si == 1 && v == 1) || (si == 0 && v == -1) {
-							ok2 = true
+					seen[st{b, ok}] = true
+					for _, in := range b.Instrs {
+						switch x := in.(type) {
+						case *ssa.Store:
+							if a.addrLoc(x.Addr) == "state.ViewContexts.newestHvCanceledOlder" {
+								ok = true
+							}
+						case *ssa.Call:
+							if h := x.Call.StaticCallee(); h != nil && depth < 2 && h.Signature.Recv() != nil && g.Signature.Recv() != nil &&
+								typeShort(h.Signature.Recv().Type()) == typeShort(g.Signature.Recv().Type()) && len(h.Blocks) > 0 {
+								for i, arg := range x.Call.Args {
+									if c.Term(arg).Key() == hvT.Key() && i < len(h.Params) {
+										if raises(h, Root(h.Params[i].Name()), depth+1) == "" {
+											ok = true
+										}
+									}
+								}
+							}
+						case *ssa.Return:
+							if !ok {
+								bad = a.P.InstrPos(in)
+							}
+							return
+						case *ssa.Panic:
+							return
 						}
 					}
-					walk(sx, ok2)
+					ifi, isIf := b.Instrs[len(b.Instrs)-1].(*ssa.If)
+					for si, sx := range b.Succs {
+						ok2 := ok
+						if isIf {
+							// does taking this edge imply "the watermark is not older than the argument"? It does when the
+							// condition, evaluated with "older" assumed true, is forced to the other truth value
+							// (covers the bare test, named booleans, nil-guards joined with || / &&, inverted forms)
+							t := unfreeze(c.Term(ifi.Cond))
+							v := evalBool(t, func(at *Atom) bool {
+								return at.Pred == "truth" && !at.Neg && len(at.Args) == 1 && at.Args[0].Key() == olderKey
+							})
+							if (si == 1 && v == 1) || (si == 0 && v == -1) {
+								ok2 = true
+							}
+						}
+						walk(sx, ok2)
+					}
 				}
+				walk(g.Blocks[0], false)
+				return bad
 			}
-			walk(fn.Blocks[0], false)
+			bad := raises(fn, hv, 0)
 			r.Check("K2.always", props("C15"), "CancelOlderThan always leaves the watermark at or above its argument (also when nothing is registered): no context can afterwards be issued for a superseded position", "CancelOlderThan", a.P.Pos(fn.Pos()), bad == "",
 				"a path reaches the return at "+bad+" without storing the watermark or finding it not older than the argument", "P")
 		}
@@ -1592,6 +1609,10 @@ func isSyncedHeightPlusOne(t, blk *Term) bool {
 	}
 	rest = unfreeze(rest)
 	if rest.Key() == hOf.Key() || rest.Key() == Const("0").Key() {
+		return true
+	}
+	// the library's own "height of a possibly nil block" helper (H0.height decides that it is exactly that)
+	if rest.Key() == Call("blockheight.GetBlockHeight", blk).Key() {
 		return true
 	}
 	if rest.Op == "ite" && len(rest.Args) == 3 {
